@@ -31,7 +31,18 @@ shrink(spec) -> iterator of smaller specs (drop triples, prefixes, base; simplif
 xml10_ok(s) -> bool                   every char of s is an XML 1.0 `Char`
 xml_expressible(spec) -> (ok, reason) RDF/XML can express the graph (predicates splittable into namespace +
                                       NCName by an independent splitter, all literal text and language tags XML-1.0-safe)
-bnodes(spec) -> sorted labels;  list_heads(spec), etc. are small helpers used by C03.
+xml_splittable(iri) -> bool            some split namespace + XML NCName exists
+bnodes(spec) -> sorted blank-node labels of a spec
+Pools (module constants, extend freely): NAMESPACES, LOCALS, SAFE_LOCALS, WELL_KNOWN, CHAR_POOL, TEXT_FIXED, LANGS,
+DATATYPES (datatype, valid lexical forms, invalid lexical forms), BIND_SETS, BASES, MALFORMED (list defects), MOTIFS,
+PROFILES.  A spec marked with the motif "xml_safe" has only XML-1.0 characters and splittable predicates.
+
+Example
+-------
+    import random, graphgen as gg
+    spec = gg.gen_spec(random.Random("7:C05:3"), profile="lists", lists="proper")
+    g = gg.build(spec)                       # rdflib.Graph with the spec's bindings
+    g.serialize(format="turtle", base=spec["base"]) if spec["base"] else g.serialize(format="turtle")
 
 Nothing here looks at the serializers/parsers under test; `build` uses only Graph(), Graph.bind, Graph.add.
 """
